@@ -17,7 +17,7 @@ use crate::iterators::{
 use crate::layout::{
     AsIndex, AsShape, BroadcastLayout, DynLayout, FromShape, InsertDim, IntoLayout, Layout,
     LayoutExt, MatrixLayout, MutLayout, NdLayout, OverlapPolicy, RemoveDim, ResizeLayout,
-    SizeArray, SliceWith, TrustedLayout,
+    SizeArray, SliceWith, TrustedLayout, checked_min_data_len, checked_non_zero_len,
 };
 use crate::overlap::may_have_internal_overlap;
 use crate::slice_range::{IntoSliceItems, SliceItem};
@@ -580,6 +580,10 @@ impl<S: Storage, L: Layout> TensorBase<S, L> {
         L: FromShape,
     {
         let data = data.into_storage();
+        if checked_non_zero_len(&shape).is_none() {
+            // The number of elements overflows, so no storage can match.
+            return Err(FromDataError::StorageLengthMismatch);
+        }
         let layout = L::from_shape(shape);
         if layout.min_data_len() != data.len() {
             return Err(FromDataError::StorageLengthMismatch);
@@ -592,7 +596,7 @@ impl<S: Storage, L: Layout> TensorBase<S, L> {
     /// Panics if the storage length is too short for the layout, or the storage
     /// is mutable and the layout may map multiple indices to the same offset.
     pub fn from_storage_and_layout(data: S, layout: L) -> TensorBase<S, L> {
-        assert!(data.len() >= layout.min_data_len());
+        assert!(checked_min_data_len(&layout).is_some_and(|min_len| data.len() >= min_len));
         assert!(!S::MUTABLE || !may_have_internal_overlap(layout.shape(), layout.strides()));
         TensorBase { data, layout }
     }
@@ -625,10 +629,15 @@ impl<S: Storage, L: Layout> TensorBase<S, L> {
     where
         L: MutLayout,
     {
-        let layout = L::from_shape_and_strides(shape, strides, OverlapPolicy::DisallowOverlap)?;
+        let layout = L::from_shape_and_strides(shape, strides, OverlapPolicy::AllowOverlap)?;
         let data = data.into_storage();
-        if layout.min_data_len() > data.len() {
+        if !checked_min_data_len(&layout).is_some_and(|min_len| min_len <= data.len()) {
             return Err(FromDataError::StorageTooShort);
+        }
+        // This is checked after the storage length, so that offsets computed
+        // by the overlap check are known not to overflow.
+        if may_have_internal_overlap(layout.shape(), layout.strides()) {
+            return Err(FromDataError::MayOverlap);
         }
         Ok(TensorBase { data, layout })
     }
@@ -1763,7 +1772,7 @@ impl<'a, T, L: Clone + Layout> TensorBase<ViewData<'a, T>, L> {
         L: MutLayout,
     {
         let layout = L::from_shape_and_strides(shape, strides, OverlapPolicy::AllowOverlap)?;
-        if layout.min_data_len() > data.as_ref().len() {
+        if !checked_min_data_len(&layout).is_some_and(|min_len| min_len <= data.len()) {
             return Err(FromDataError::StorageTooShort);
         }
         Ok(TensorBase {
